@@ -7,7 +7,8 @@
   `_SO_foreignKey`;
 * `sqlobject/dbconnection.py:Iteration.next`;
 * `sqlobject/cache.py:CacheSet` — `get`, `put`, `finishPut`, `created`, `expire`, `clear`, `tryGet`,
-  `tryGetByName`, `allIDs`, `allSubCaches`, `allSubCachesByClassNames`, `weakrefAll`, `getAll`.
+  `tryGetByName`, `allIDs`, `allSubCaches`, `allSubCachesByClassNames`, `weakrefAll` (not `getAll`: it
+  extends a list local; `SQLObject.delete` = `get` + the whole of `destroySelf` is C12's).
 This file is the fixed vocabulary and its reference semantics (same design as `Model/PyTx.lean` /
 `Model/PyInherit.lean`): the interpreter is generic in the type `W` of worlds, and everything the translated code
 does to objects other than its own locals goes through an `Iface W` — the PARAMETERS of the interpreter:
